@@ -174,6 +174,7 @@ class Gen:
         cd.features.add('leaf-lambda-reads-field')
       cd.features.add('leaf-struct-wire')
     s.constraints(cd, comb, 0.75 if rich else 0.3)
+    cd.blocks_for_parents = [((), b) for b, _, _ in comb]
     s.leaves.append(cd)
     return cd
 
@@ -214,8 +215,65 @@ class Gen:
     if cons: cd.lines.append('s.add_constraints( ' + ', '.join(cons) + ' )')
 
   # ---------------------------------------------------------------- components with child slots
+  def gen_wrapper(s, depth, nest=True):
+    """a purely structural component (no update block of its own): children chained by connections, and explicit U-U / RD-U /
+    WR-U constraints declared HERE over update blocks of its children / grandchildren (forward along the dataflow)"""
+    rng = s.rng
+    kids = []
+    for i in range(rng.randrange(2, 4)):
+      if i == 0 and nest and rng.random() < 0.3: c = s.gen_wrapper(depth + 1, nest=False)
+      elif s.leaves and rng.random() < 0.3: c = rng.choice(s.leaves)
+      else: c = s.gen_leaf()
+      kids.append((f'x{i}', c, rng.randrange(1, 9)))
+    cd = CD(s.fresh('W'), s.method, forward=s.method, cid=len(s.classes)); s.classes.append(cd)
+    cd.sig('in_', 'InPort', 8); cd.sig('out', 'OutPort', 8)
+    for seg, c, k in kids:
+      cd.lines.append(f's.{seg} = pick( s, "{seg}", {c.name} )( {k} )'); cd.slots.append((seg, c, k))
+      cd.facts += [('edge', ('s', nm(seg, 'clk')), ('s', nm('clk'))), ('edge', ('s', nm(seg, 'reset')), ('s', nm('reset')))]
+    if s.method:
+      cd.lines.append('connect( s.recv, s.x0.recv )'); cd.facts.append(('medge', nm('recv'), nm('x0', 'recv')))
+    src = nm('in_')
+    for i, (seg, c, k) in enumerate(kids):
+      cd.lines.append(f's.{seg}.in_ //= {expr(src)}'); cd.facts.append(('edge', ('s', nm(seg, 'in_')), ('s', src)))
+      cd.sig(f't{i}', 'Wire', 8)
+      cd.lines.append(f's.t{i} //= s.{seg}.out'); cd.facts.append(('edge', ('s', nm(f't{i}')), ('s', nm(seg, 'out'))))
+      # the child's output port fans out: to the wire t_i AND directly to the next sibling's input port (or to out)
+      src = nm(seg, 'out') if rng.random() < 0.6 else nm(f't{i}')
+    cd.lines.append(f's.out //= {expr(src)}'); cd.facts.append(('edge', ('s', nm('out')), ('s', src)))
+    cd.sig('so', 'OutPort', 'St')
+    cd.lines.append(f's.so //= s.{kids[-1][0]}.so'); cd.facts.append(('edge', ('s', nm('so')), ('s', nm(kids[-1][0], 'so'))))
+    blocks = [[((seg,) + path, b) for path, b in getattr(c, 'blocks_for_parents', [])] for seg, c, k in kids]
+    def gub(path, b): return f'{expr(path)}.get_update_block( "{b}" )'
+    cons, seen = [], set()
+    for _ in range(rng.randrange(1, 4)):
+      kind = rng.choice(['UU', 'UU', 'RD', 'WR'])
+      i, j = sorted(rng.sample(range(len(kids)), 2))
+      if kind == 'UU' and blocks[i] and blocks[j]:
+        (p1, b1), (p2, b2) = rng.choice(blocks[i]), rng.choice(blocks[j])
+        key = ('UUc', p1, b1, p2, b2)
+        if key in seen: continue
+        cons.append(f'U({gub(p1, b1)}) < U({gub(p2, b2)})')
+      elif kind == 'RD' and blocks[i]:
+        p1, b1 = rng.choice(blocks[i]); v = nm(f't{rng.randrange(i, len(kids))}')
+        key = ('RDUc', v, '>', p1, b1)
+        if key in seen: continue
+        cons.append(f'U({gub(p1, b1)}) < RD({expr(v)})')
+      elif kind == 'WR' and blocks[j]:
+        p2, b2 = rng.choice(blocks[j]); v = nm(f't{rng.randrange(0, j)}')
+        key = ('WRUc', v, '<', p2, b2)
+        if key in seen: continue
+        cons.append(f'WR({expr(v)}) < U({gub(p2, b2)})')
+      else: continue
+      seen.add(key); cd.facts.append(key)
+    if cons: cd.lines.append('s.add_constraints( ' + ', '.join(cons) + ' )')
+    cd.blocks_for_parents = [b for bl in blocks[-1:] for b in bl]
+    cd.features |= {'structural-wrapper'}
+    if cons: s.features.add('wrapper-constraints-over-descendant-blocks')
+    return cd
+
   def child_class(s, depth):
     rng = s.rng
+    if depth < s.maxdepth and rng.random() < 0.2: return s.gen_wrapper(depth)
     if depth < s.maxdepth and rng.random() < 0.45: return s.gen_inner(depth)
     if s.leaves and rng.random() < 0.35: return rng.choice(s.leaves)
     return s.gen_leaf()
@@ -288,6 +346,10 @@ class Gen:
       r = rng.random()
       if r < 0.4:
         cd.lines.append(f's.{tw} //= {X}.out'); cd.facts.append(('edge', ('s', nm(tw)), ('s', nm(seg, 'out'))))
+        if rng.random() < 0.35:
+          # fan-out: the same output port of the child is connected directly to a second signal of the parent
+          cd.sig(f'fo{t}', 'Wire', 8)
+          cd.lines.append(f's.fo{t} //= {X}.out'); cd.facts.append(('edge', ('s', nm(f'fo{t}')), ('s', nm(seg, 'out')))); s.features.add('child-port-fan-out')
       elif r < 0.6:
         b = f'up_rd{cd.nblk}'; cd.nblk += 1
         cd.blk(b, 'up', [f's.{tw} @= {X}.out'], [nm(seg, 'out')], [nm(tw)]); comb.append((b, {nm(seg, 'out')}, {nm(tw)})); s.features.add('parent-reads-child-port')
@@ -379,6 +441,8 @@ def refs_of(f):
   if k in ('sig', 'meth', 'touch'): return [f[1]]
   if k in ('rd', 'wr', 'call'): return [f[2]]
   if k in ('RDU', 'WRU'): return [f[1]]
+  if k == 'UUc': return [f[1], f[3]]
+  if k in ('RDUc', 'WRUc'): return [f[1], f[3]]
   if k == 'M': return [m[1] for m in (f[1], f[2]) if m[0] == 'm']
   if k == 'edge': return [e[1] for e in (f[1], f[2]) if e[0] == 's']
   if k == 'medge': return [f[1], f[2]]
@@ -397,6 +461,8 @@ def coq_fact(f):
   if k in ('rd', 'wr', 'call'): return f'({ {"rd": "FRead", "wr": "FWrite", "call": "FCall"}[k] } "{f[1]}" {coq_name(f[2])})'
   if k == 'UU': return f'(FUU "{f[1]}" "{f[2]}")'
   if k in ('RDU', 'WRU'): return f'(F{k} {coq_name(f[1])} "{f[2]}" "{f[3]}")'
+  if k == 'UUc': return f'(FUUc {coq_name(f[1])} "{f[2]}" {coq_name(f[3])} "{f[4]}")'
+  if k in ('RDUc', 'WRUc'): return f'(F{k} {coq_name(f[1])} "{f[2]}" {coq_name(f[3])} "{f[4]}")'
   if k == 'M': return f'(FM {coq_mref(f[1])} {coq_mref(f[2])} "{f[3]}")'
   if k == 'edge': return f'(FEdge {coq_ep(f[1])} {coq_ep(f[2])})'
   if k == 'medge': return f'(FMEdge {coq_name(f[1])} {coq_name(f[2])})'
@@ -768,6 +834,8 @@ def random_history(ctx, g, j):
     inst = instantiate(g.top, table)
     # a slot X is pinned while its parent refers to X.Y...: a replacement of X would have to expose the sub-slot Y as well
     pinned = {n + r[:1] for n, facts in inst for f in facts for r in refs_of(f) if len(r) >= 3 and not r[1].startswith('[')}
+    # descendants whose update blocks are named in a constraint of an ancestor must keep exposing those blocks
+    pinned |= {n + c[:i] for n, facts in inst for f in facts if f[0] in ('UUc', 'RDUc', 'WRUc') for c in ((f[1], f[3]) if f[0] == 'UUc' else (f[3],)) for i in range(1, len(c) + 1)}
     comps = [n for n, _ in inst if n and n not in pinned]
     if not comps: break
     if history and rng.random() < 0.3: slot = slot_name(history[-1][0])          # the same slot again
@@ -777,7 +845,8 @@ def random_history(ctx, g, j):
     else: slot = rng.choice(comps)
     depth = len(slot)
     r = rng.random()
-    if r < 0.5: newc = g.gen_leaf()
+    if r < 0.2 and depth < 3: newc = g.gen_wrapper(depth)
+    elif r < 0.5: newc = g.gen_leaf()
     elif r < 0.75 and depth < 3: newc = g.gen_inner(depth)
     else: newc = rng.choice(g.leaves)
     mode = rng.choice(['cls', 'cls', 'obj'])
@@ -966,7 +1035,7 @@ def run(ctx):
   cases, meta = [], []
   for tag, topc, hist, params in DIRECTED:
     run_history(ctx, tag, DIRECTED_SRC + f'\nTop = {topc}\n', hist, params, cases, meta, feats=('directed',))
-  N = 80 if quick else 1000
+  N = 64 if quick else 1000
   for j in range(N):
     while True:
       g = Gen(random.Random(rng.randrange(1 << 30)), f'R{j}').build()
@@ -980,7 +1049,7 @@ def run(ctx):
                     {'design_source': g.source(), 'history': history, 'traceback': traceback.format_exc()[-1500:]}, found_input=False)
   ctx.extra['python_phase_s'] = round(time.time() - t_py, 1)
   bad = ctx.coq_bad_indices('meta', 'Base.Prelude Elab.Replace', 'From Coq Require Import String.\nLocal Open Scope string_scope.',
-                            'hier * list (name * hier) * list row * bool', cases, 'case_ok c', shard=8 if quick else 20)
+                            'hier * list (name * hier) * list row * bool', cases, 'case_ok c', shard=5 if quick else 20, jobs=14 if quick else 8)
   nmodel, confirmed = 0, 0
   badset = set(bad)
   for i, (tag, replay, kind) in enumerate(meta):
